@@ -828,7 +828,7 @@ def run_reporting(case, n):
         def run():
             eng = E.cur()
             del asked[:]
-            conf, tail = F.choose("conf", [0.9, 0.68]), F.choose("tail", [2, 1])
+            conf, tail = 0.9, F.choose("tail", [2, 1])
             obs, os_ = F.sym_cells("o", n)
             pred, ps_ = F.sym_cells("q", n)  # a day without temperature has usage but no prediction
             idx = reporting_index(n, F.choose("span", ["days", "two-januaries"]))
